@@ -268,7 +268,18 @@ QBld == <<
   BldDecl(64, <<>>, << LA(<< <<0, 7>>, <<32, 39>> >>, 4, 8) >>, <<>>),
   BldDecl(32, <<>>, << LA(<< <<8, 15>>, <<0, 7>> >>, 2, 16) >>, <<>>),
   BldDecl(32, <<>>, << ArrFld("unat", 8, 0, 0, 4, <<>>, "rw") >>, <<>>),
-  BldDecl(128, <<>>, << ArrFld("unat", 16, 0, 0, 8, <<>>, "rw") >>, <<>>)
+  BldDecl(128, <<>>, << ArrFld("unat", 16, 0, 0, 8, <<>>, "rw") >>, <<>>),
+  (* ONE scalar list field that fills the whole base in permuted order (byte swap, nibble swap, bit reversal, rotation) *)
+  BldDecl(16, <<>>, << L(<< <<8, 15>>, <<0, 7>> >>) >>, <<>>),
+  BldDecl(8, <<>>, << L(<< <<4, 7>>, <<0, 3>> >>) >>, <<>>),
+  BldDecl(8, <<>>, << L(Rev8) >>, <<>>),
+  BldDecl(32, <<AsSeq({0})>>, << L(<< <<24, 31>>, <<16, 23>>, <<8, 15>>, <<0, 7>> >>) >>, <<>>),
+  BldDecl(64, <<>>, << LS(<< <<1, 63>>, <<0, 0>> >>) >>, <<>>),
+  BldDecl(24, <<>>, << L(<< <<16, 23>>, <<0, 7>> >>), Scalar("unat", 8, 8, "rw") >>, <<>>),
+  (* several array fields of DIFFERENT lengths, the longer ones declared later *)
+  BldDecl(32, <<>>, << ArrFld("uarb", 4, 0, 0, 2, <<>>, "rw"), ArrFld("uarb", 4, 0, 8, 4, <<>>, "rw"), Scalar("unat", 8, 24, "rw") >>, <<>>),
+  BldDecl(32, <<AsSeq({31})>>, << ArrFld("bool", 1, 0, 0, 2, <<>>, "rw"), ArrFld("bool", 1, 0, 2, 5, <<>>, "rw"), ArrFld("uarb", 2, 0, 8, 7, <<>>, "rw") >>, <<>>),
+  BldDecl(64, <<>>, << ArrFld("unat", 8, 0, 0, 2, <<>>, "rw"), ArrFld("unat", 8, 0, 16, 3, <<>>, "rw"), ArrFld("uarb", 3, 0, 40, 8, <<>>, "rw") >>, <<>>)
   >>
 
 ---------------------------------------------------------------------------
